@@ -53,7 +53,23 @@ pub mod shims {
     pub struct FileLogWriterBuilder { pub mode: WriteMode, pub fmt: VFormatFn, pub rest: int }
     pub struct FileLogWriter { pub fmt: VFormatFn, pub from: int, pub mode: WriteMode }
     pub uninterp spec fn flw_build_result(b: FileLogWriterBuilder) -> Result<FileLogWriter, FlexiLoggerError>;
+    pub struct FileSpec { _o: () }
+    pub struct Criterion { _o: () }
+    pub struct Naming { _o: () }
+    pub struct Cleanup { _o: () }
+    /// the builder after each of its setters (unit `builder` proves what each one changes: `settings()` / `others()`).
+    /// Stated here: which setter was called with which arguments; none but `write_mode` changes the write mode, none but
+    /// `format` the format function. Signatures are read from the source on every run.
+    pub uninterp spec fn b_file_spec(b: FileLogWriterBuilder, f: FileSpec) -> FileLogWriterBuilder;
+    pub uninterp spec fn b_print_message(b: FileLogWriterBuilder, on: bool) -> FileLogWriterBuilder;
+    pub uninterp spec fn b_rotate(b: FileLogWriterBuilder, r: Option<(Criterion, Naming, Cleanup)>) -> FileLogWriterBuilder;
+    pub uninterp spec fn b_append(b: FileLogWriterBuilder, on: bool) -> FileLogWriterBuilder;
+    pub uninterp spec fn b_symlink<P>(b: FileLogWriterBuilder, p: Option<P>) -> FileLogWriterBuilder;
+    pub uninterp spec fn b_crlf(b: FileLogWriterBuilder) -> FileLogWriterBuilder;
+    pub uninterp spec fn b_bg(b: FileLogWriterBuilder, on: bool) -> FileLogWriterBuilder;
+    pub uninterp spec fn b_utc(b: FileLogWriterBuilder) -> FileLogWriterBuilder;
     impl FileLogWriterBuilder {
+        pub open spec fn same_mode_fmt(self, o: FileLogWriterBuilder) -> bool { self.mode == o.mode && self.fmt == o.fmt }
         #[verifier::external_body]
         pub fn get_write_mode(&self) -> (r: &WriteMode) ensures *r == self.mode { unimplemented!() }
         #[verifier::external_body]
@@ -63,34 +79,115 @@ pub mod shims {
         pub fn try_build(self) -> (r: Result<FileLogWriter, FlexiLoggerError>)
             ensures r == flw_build_result(self), r is Ok ==> r->Ok_0.fmt == self.fmt && r->Ok_0.mode == self.mode && r->Ok_0.from == self.rest,
         { unimplemented!() }
+    //@ sig src/writers/file_log_writer/builder.rs impl FileLogWriterBuilder / fn file_spec
+    //@   ret r
+    //@   rule R10 1
+    //@   ens r == b_file_spec(self, file_spec) && r.same_mode_fmt(self)
+    //@ sig src/writers/file_log_writer/builder.rs impl FileLogWriterBuilder / fn print_message
+    //@   ret r
+    //@   rule R10 1
+    //@   ens r == b_print_message(self, true) && r.same_mode_fmt(self)
+    //@ sig src/writers/file_log_writer/builder.rs impl FileLogWriterBuilder / fn o_print_message
+    //@   ret r
+    //@   rule R10 1
+    //@   ens r == b_print_message(self, print_message) && r.same_mode_fmt(self)
+    //@ sig src/writers/file_log_writer/builder.rs impl FileLogWriterBuilder / fn rotate
+    //@   ret r
+    //@   rule R10 1
+    //@   ens r == b_rotate(self, Some((criterion, naming, cleanup))) && r.same_mode_fmt(self)
+    //@ sig src/writers/file_log_writer/builder.rs impl FileLogWriterBuilder / fn o_rotate
+    //@   ret r
+    //@   rule R10 1
+    //@   ens r == b_rotate(self, rotate_config) && r.same_mode_fmt(self)
+    //@ sig src/writers/file_log_writer/builder.rs impl FileLogWriterBuilder / fn append
+    //@   ret r
+    //@   rule R10 1
+    //@   ens r == b_append(self, true) && r.same_mode_fmt(self)
+    //@ sig src/writers/file_log_writer/builder.rs impl FileLogWriterBuilder / fn o_append
+    //@   ret r
+    //@   rule R10 1
+    //@   ens r == b_append(self, append) && r.same_mode_fmt(self)
+    //@ sig src/writers/file_log_writer/builder.rs impl FileLogWriterBuilder / fn create_symlink
+    //@   ret r
+    //@   rule R10 1
+    //@   ens r == b_symlink::<P>(self, Some(symlink)) && r.same_mode_fmt(self)
+    //@ sig src/writers/file_log_writer/builder.rs impl FileLogWriterBuilder / fn o_create_symlink
+    //@   ret r
+    //@   rule R10 1
+    //@   ens r == b_symlink::<S>(self, symlink) && r.same_mode_fmt(self)
+    //@ sig src/writers/file_log_writer/builder.rs impl FileLogWriterBuilder / fn use_windows_line_ending
+    //@   ret r
+    //@   rule R10 1
+    //@   ens r == b_crlf(self) && r.same_mode_fmt(self)
+    //@ sig src/writers/file_log_writer/builder.rs impl FileLogWriterBuilder / fn cleanup_in_background_thread
+    //@   ret r
+    //@   rule R10 1
+    //@   ens r == b_bg(self, use_background_thread) && r.same_mode_fmt(self)
+    //@ sig src/writers/file_log_writer/builder.rs impl FileLogWriterBuilder / fn use_utc
+    //@   ret r
+    //@   rule R10 1
+    //@   ens r == b_utc(self) && r.same_mode_fmt(self)
+    //@ sig src/writers/file_log_writer/builder.rs impl FileLogWriterBuilder / fn write_mode
+    //@   ret r
+    //@   rule R10 1
+    //@   ens r.mode == write_mode && r.fmt == self.fmt && r.rest == self.rest
+    }
+    /// SHIM for the fn item `default_format` (the default value of every format function)
+    pub uninterp spec fn default_format_spec() -> VFormatFn;
+    #[allow(non_upper_case_globals)]
+    #[verifier::external_body]
+    pub exec const default_format: VFormatFn ensures default_format == default_format_spec() { VFormatFn { _o: () } }
+    pub uninterp spec fn default_file_spec() -> FileSpec;
+    impl Default for FileSpec { #[verifier::external_body] fn default() -> (r: FileSpec) ensures r == default_file_spec() { unimplemented!() } }
+    /// a new builder (unit `builder`: FileLogWriterBuilder::new.post — direct writing, default format, ...)
+    pub uninterp spec fn b_new(f: FileSpec) -> FileLogWriterBuilder;
+    impl FileLogWriter {
+    //@ sig src/writers/file_log_writer.rs impl FileLogWriter / fn builder
+    //@   ret r
+    //@   ens r == b_new(file_spec) && r.mode is Direct && r.fmt == default_format_spec()
+    }
+    /// unit `wmode`: what `Logger::write_mode` splits a mode into
+    pub uninterp spec fn wf_of(m: WriteMode) -> WriteMode;
+    pub uninterp spec fn interval_of(m: WriteMode) -> std::time::Duration;
+    /// a mode that would make a writer flush on its own (the std writers panic on it): unit `wmode` proves that
+    /// `without_flushing` never returns one (without_flushing.post.no_flushing)
+    #[cfg(not(feature = "async"))]
+    pub open spec fn own_flushing(m: WriteMode) -> bool { m is BufferAndFlush || m is BufferAndFlushWith }
+    #[cfg(feature = "async")]
+    pub open spec fn own_flushing(m: WriteMode) -> bool { m is BufferAndFlush || m is BufferAndFlushWith || m is Async || (m is AsyncWith && m->flush_interval != super::logger::zero_duration()) }
+    impl WriteMode {
+    //@ sig src/write_mode.rs impl WriteMode / fn without_flushing
+    //@   ret r
+    //@   ens r == wf_of(*self) && !own_flushing(r)
+    //@ sig src/write_mode.rs impl WriteMode / fn get_flush_interval
+    //@   ret r
+    //@   ens r == interval_of(*self)
     }
     /// permissions: which primary writer may be constructed from what
     pub uninterp spec fn pw_std_ok(out: bool, f: VFormatFn, m: WriteMode) -> bool;
     pub uninterp spec fn pw_test_ok(out: bool, f: VFormatFn) -> bool;
     pub uninterp spec fn pw_multi_ok(de: Duplicate, dout: Duplicate, sc: bool, fe: VFormatFn, fo: VFormatFn, fw: Option<Box<FileLogWriter>>, ow: Option<Box<dyn LogWriter>>) -> bool;
     pub struct PrimaryWriter { _o: () }
+    pub type FormatFunction = VFormatFn;
+    // the constructors of the primary writer: signatures read from the source on every run (their bodies: unit `primary`),
+    // contracts stated by parameter name, so a changed parameter order shows at the call sites in `build`
     impl PrimaryWriter {
-        #[verifier::external_body]
-        pub fn multi(duplicate_stderr: Duplicate, duplicate_stdout: Duplicate, support_capture: bool, format_for_stderr: VFormatFn, format_for_stdout: VFormatFn,
-                     o_file_writer: Option<Box<FileLogWriter>>, o_other_writer: Option<Box<dyn LogWriter>>) -> PrimaryWriter
-            requires
-                pw_multi_ok(duplicate_stderr, duplicate_stdout, support_capture, format_for_stderr, format_for_stdout, o_file_writer, o_other_writer), //@label PrimaryWriter::multi.perm C20,C13,C15
-        { unimplemented!() }
-        #[verifier::external_body]
-        pub fn stderr(format: VFormatFn, write_mode: &WriteMode) -> PrimaryWriter
-            requires
-                pw_std_ok(false, format, *write_mode), //@label PrimaryWriter::stderr.perm C20,C15
-        { unimplemented!() }
-        #[verifier::external_body]
-        pub fn stdout(format: VFormatFn, write_mode: &WriteMode) -> PrimaryWriter
-            requires
-                pw_std_ok(true, format, *write_mode), //@label PrimaryWriter::stdout.perm C20,C15
-        { unimplemented!() }
-        #[verifier::external_body]
-        pub fn test(stdout: bool, format: VFormatFn) -> PrimaryWriter
-            requires
-                pw_test_ok(stdout, format), //@label PrimaryWriter::test.perm C20
-        { unimplemented!() }
+    //@ sig src/primary_writer.rs impl PrimaryWriter / fn multi
+    //@   props C20,C13,C15
+    //@   req[PrimaryWriter::multi.perm] pw_multi_ok(duplicate_stderr, duplicate_stdout, support_capture, format_for_stderr, format_for_stdout, o_file_writer, o_other_writer)
+    //@ sig src/primary_writer.rs impl PrimaryWriter / fn stderr
+    //@   props C20,C15
+    //@   req[PrimaryWriter::stderr.perm] pw_std_ok(false, format, *write_mode)
+    //@   props C10
+    //@   req[PrimaryWriter::stderr.pre.no_own_flushing] !own_flushing(*write_mode)
+    //@ sig src/primary_writer.rs impl PrimaryWriter / fn stdout
+    //@   props C20,C15
+    //@   req[PrimaryWriter::stdout.perm] pw_std_ok(true, format, *write_mode)
+    //@   props C10
+    //@   req[PrimaryWriter::stdout.pre.no_own_flushing] !own_flushing(*write_mode)
+    //@ sig src/primary_writer.rs impl PrimaryWriter / fn test
+    //@   props C20
+    //@   req[PrimaryWriter::test.perm] pw_test_ok(stdout, format)
     }
     /// token fact: only `LogWriter::format(f)` on the additional writer establishes it
     pub uninterp spec fn ow_formatted(f: VFormatFn) -> bool;
@@ -103,6 +200,7 @@ pub mod shims {
     //@ item src/logger.rs enum ErrorChannel
     //@   dropattr #[derive
     //@   dropattr #[default
+    //@   derivedefault
 
     /// permissions and token facts of the effects of the second half of build
     pub uninterp spec fn ec_ok(c: ErrorChannel) -> bool;
@@ -171,7 +269,7 @@ pub mod shims {
 pub mod logger {
     use super::*;
     use super::{flexi_error::FlexiLoggerError, shims::*};
-    use std::{collections::HashMap, sync::{Arc, RwLock}};
+    use std::{collections::HashMap, path::PathBuf, sync::{Arc, RwLock}};
     type FormatFunction = VFormatFn;
     broadcast use super::duration_axioms::group_duration_axioms;
     pub uninterp spec fn zero_duration() -> std::time::Duration;
@@ -206,6 +304,16 @@ pub mod logger {
             (self.spec, self.flush_interval, self.flwb, self.other_writers, self.filter, self.use_utc, self.panic_on_error_channel_error)
         }
         pub closed spec fn formats(&self) -> (VFormatFn, VFormatFn, VFormatFn, VFormatFn) { (self.format_for_file, self.format_for_stderr, self.format_for_stdout, self.format_for_writer) }
+    // the defaults of a new Logger: stderr, no duplication, default formats, no flusher, a fresh file writer builder, stderr as error channel
+    //@ fn src/logger.rs impl Logger / fn from_spec_and_errs
+    //@   ret r
+    //@   props C13,C19,C20,C10,C04
+    //@   ens[Logger::new.post.target] r.the_target() is StdErr && r.dups() == (Duplicate::None, Duplicate::None) && r.the_spec() == spec
+    //@   ens[Logger::new.post.formats] r.formats() == (default_format_spec(), default_format_spec(), default_format_spec(), default_format_spec())
+    //@   ens[Logger::new.post.flwb] r.the_flwb() == b_new(default_file_spec()) && r.the_flush_interval() == zero_duration() && !r.the_use_utc()
+    //@   ens[Logger::new.post.error_channel] r.the_error_channel() is StdErr
+    //@   ens[Logger::new.post.no_writers] r.the_other_writers()@.len() == 0 && r.the_filter() is None
+    //@   ens[Logger::new.post.inv] r.inv()
     // configuration setters (`mut self` builder methods, rule R10b): each changes exactly the field(s) it names
     //@ fn src/logger.rs impl Logger / fn format
     //@   ret r
@@ -262,6 +370,102 @@ pub mod logger {
     //@   props C13
     //@   rule R10b 1
     //@   ens[Logger::log_to_writer.post] r.is_multi_with(false, Some(w)) && r.dups() == self.dups() && r.formats() == self.formats() && r.rest() == self.rest() && r.the_error_channel() == self.the_error_channel()
+        /// everything but the builder of the file writer and the flush interval
+        pub closed spec fn frame_but_flwb(&self) -> (LogSpecification, HashMap<String, Box<dyn LogWriter>>, Option<Box<dyn LogLineFilter>>, bool, bool, (VFormatFn, VFormatFn, VFormatFn, VFormatFn), (Duplicate, Duplicate), ErrorChannel, std::time::Duration) {
+            (self.spec, self.other_writers, self.filter, self.use_utc, self.panic_on_error_channel_error, self.formats(), self.dups(), self.error_channel, self.flush_interval)
+        }
+        pub closed spec fn frame_wm(&self) -> (LogSpecification, HashMap<String, Box<dyn LogWriter>>, Option<Box<dyn LogLineFilter>>, bool, bool, (VFormatFn, VFormatFn, VFormatFn, VFormatFn), (Duplicate, Duplicate), ErrorChannel, LogTarget) {
+            (self.spec, self.other_writers, self.filter, self.use_utc, self.panic_on_error_channel_error, self.formats(), self.dups(), self.error_channel, self.log_target)
+        }
+        /// C10 (representation invariant of the Logger builder): the write mode kept for the writers never flushes on its
+        /// own — `Logger::write_mode` stores `without_flushing()` and hands the interval to the flusher thread; every
+        /// setter keeps it (`rest()` contains the builder); the std writers' constructor relies on it (no `unreachable!`)
+        pub open spec fn inv(&self) -> bool { !own_flushing(self.the_flwb().mode) }
+    //@ fn src/logger.rs impl Logger / fn log_to_file
+    //@   ret r
+    //@   props C16,C13
+    //@   rule R10b 1
+    //@   ens[Logger::log_to_file.post] r.the_flwb() == b_file_spec(self.the_flwb(), file_spec) && r.is_multi_with(true, None) && r.frame_but_flwb() == self.frame_but_flwb()
+    //@   ens[Logger::log_to_file.post.inv] self.inv() ==> r.inv()
+    //@ fn src/logger.rs impl Logger / fn log_to_file_and_writer
+    //@   ret r
+    //@   props C16,C13
+    //@   rule R10b 1
+    //@   ens[Logger::log_to_file_and_writer.post] r.the_flwb() == b_file_spec(self.the_flwb(), file_spec) && r.is_multi_with(true, Some(w)) && r.frame_but_flwb() == self.frame_but_flwb()
+    //@   ens[Logger::log_to_file_and_writer.post.inv] self.inv() ==> r.inv()
+    //@ fn src/logger.rs impl Logger / fn print_message
+    //@   ret r
+    //@   props C16
+    //@   rule R10b 1
+    //@   ens[Logger::print_message.post] r.the_flwb() == b_print_message(self.the_flwb(), true) && r.the_target() == self.the_target() && r.frame_but_flwb() == self.frame_but_flwb()
+    //@   ens[Logger::print_message.post.inv] self.inv() ==> r.inv()
+    //@ fn src/logger.rs impl Logger / fn o_print_message
+    //@   ret r
+    //@   props C16
+    //@   rule R10b 1
+    //@   ens[Logger::o_print_message.post] r.the_flwb() == b_print_message(self.the_flwb(), print_message) && r.the_target() == self.the_target() && r.frame_but_flwb() == self.frame_but_flwb()
+    //@   ens[Logger::o_print_message.post.inv] self.inv() ==> r.inv()
+    //@ fn src/logger.rs impl Logger / fn rotate
+    //@   ret r
+    //@   props C16,C07,C08
+    //@   rule R10b 1
+    //@   ens[Logger::rotate.post] r.the_flwb() == b_rotate(self.the_flwb(), Some((criterion, naming, cleanup))) && r.the_target() == self.the_target() && r.frame_but_flwb() == self.frame_but_flwb()
+    //@   ens[Logger::rotate.post.inv] self.inv() ==> r.inv()
+    //@ fn src/logger.rs impl Logger / fn o_rotate
+    //@   ret r
+    //@   props C16,C07,C08
+    //@   rule R10b 1
+    //@   ens[Logger::o_rotate.post] r.the_flwb() == b_rotate(self.the_flwb(), rotate_config) && r.the_target() == self.the_target() && r.frame_but_flwb() == self.frame_but_flwb()
+    //@   ens[Logger::o_rotate.post.inv] self.inv() ==> r.inv()
+    //@ fn src/logger.rs impl Logger / fn append
+    //@   ret r
+    //@   props C06
+    //@   rule R10b 1
+    //@   ens[Logger::append.post] r.the_flwb() == b_append(self.the_flwb(), true) && r.the_target() == self.the_target() && r.frame_but_flwb() == self.frame_but_flwb()
+    //@   ens[Logger::append.post.inv] self.inv() ==> r.inv()
+    //@ fn src/logger.rs impl Logger / fn o_append
+    //@   ret r
+    //@   props C06
+    //@   rule R10b 1
+    //@   ens[Logger::o_append.post] r.the_flwb() == b_append(self.the_flwb(), append) && r.the_target() == self.the_target() && r.frame_but_flwb() == self.frame_but_flwb()
+    //@   ens[Logger::o_append.post.inv] self.inv() ==> r.inv()
+    //@ fn src/logger.rs impl Logger / fn create_symlink
+    //@   ret r
+    //@   props C16
+    //@   rule R10b 1
+    //@   ens[Logger::create_symlink.post] r.the_flwb() == b_symlink::<P>(self.the_flwb(), Some(symlink)) && r.the_target() == self.the_target() && r.frame_but_flwb() == self.frame_but_flwb()
+    //@   ens[Logger::create_symlink.post.inv] self.inv() ==> r.inv()
+    //@ fn src/logger.rs impl Logger / fn o_create_symlink
+    //@   ret r
+    //@   props C16
+    //@   rule R10b 1
+    //@   ens[Logger::o_create_symlink.post] r.the_flwb() == b_symlink::<P>(self.the_flwb(), symlink) && r.the_target() == self.the_target() && r.frame_but_flwb() == self.frame_but_flwb()
+    //@   ens[Logger::o_create_symlink.post.inv] self.inv() ==> r.inv()
+    //@ fn src/logger.rs impl Logger / fn use_windows_line_ending
+    //@   ret r
+    //@   props C20
+    //@   rule R10b 1
+    //@   ens[Logger::use_windows_line_ending.post] r.the_flwb() == b_crlf(self.the_flwb()) && r.the_target() == self.the_target() && r.frame_but_flwb() == self.frame_but_flwb()
+    //@   ens[Logger::use_windows_line_ending.post.inv] self.inv() ==> r.inv()
+    //@ fn src/logger.rs impl Logger / fn cleanup_in_background_thread
+    //@   ret r
+    //@   props C07
+    //@   rule R10b 1
+    //@   ens[Logger::cleanup_in_background_thread.post] r.the_flwb() == b_bg(self.the_flwb(), use_background_thread) && r.the_target() == self.the_target() && r.frame_but_flwb() == self.frame_but_flwb()
+    //@   ens[Logger::cleanup_in_background_thread.post.inv] self.inv() ==> r.inv()
+    //@ fn src/logger.rs impl Logger / fn write_mode
+    //@   ret r
+    //@   props C04,C15,C10
+    //@   rule R10b 1
+    //@   ens[Logger::write_mode.post.writers] r.the_flwb().mode == wf_of(write_mode) && r.the_flwb().fmt == self.the_flwb().fmt && r.the_flwb().rest == self.the_flwb().rest
+    //@   ens[Logger::write_mode.post.flusher] r.the_flush_interval() == interval_of(write_mode)
+    //@   ens[Logger::write_mode.post.frame] r.frame_wm() == self.frame_wm()
+    //@   ens[Logger::write_mode.post.inv] r.inv()
+    //@ fn src/logger.rs impl Logger / fn use_utc
+    //@   ret r
+    //@   props C09,C20
+    //@   rule R10b 1
+    //@   ens[Logger::use_utc.post] r.the_use_utc() && r.the_flwb() == self.the_flwb() && r.the_target() == self.the_target() && r.formats() == self.formats() && r.dups() == self.dups() && r.the_error_channel() == self.the_error_channel() && r.the_flush_interval() == self.the_flush_interval() && r.the_spec() == self.the_spec()
     //@ fn src/logger.rs impl Logger / fn error_channel
     //@   ret r
     //@   props C19
@@ -272,6 +476,7 @@ pub mod logger {
         /// mode and duplication levels
         fn build_primary(self) -> (r: Result<Arc<PrimaryWriter>, FlexiLoggerError>)
             requires
+                self.inv(),
                 forall|out: bool, f: VFormatFn, m: WriteMode| #[trigger] pw_std_ok(out, f, m) <==> (!self.capture() && m == self.the_flwb().mode
                     && ((self.the_target() is StdOut && out && f == self.fmt_out()) || (self.the_target() is StdErr && !out && f == self.fmt_err()))),
                 forall|out: bool, f: VFormatFn| #[trigger] pw_test_ok(out, f) <==> (self.capture()
